@@ -26,11 +26,30 @@ pub fn addr_of<T>(l: &T) -> usize {
 	(l as *const T).cast::<()>() as usize
 }
 
-/// the cached list is strictly ascending by address (so adjacent comparison finds every duplicate: lemma L1)
+/// Direction of the one acquisition order, TAKEN FROM THE CODE: how the checked constructor orders two locks
+/// of one array listed against their addresses.  The obligations below demand a strict order in that
+/// direction, so a consistent re-implementation (e.g. descending addresses everywhere) is not an alarm, while
+/// one constructor or kind disagreeing with the others is.
+pub fn code_sorts_ascending() -> bool {
+	let pair = <[M; 2] as Make<2>>::make([0; 2]);
+	let c = BoxedLockCollection::try_new([&pair[1], &pair[0]]);
+	match &c {
+		Some(c) => {
+			let l = cp::boxed_locks(c);
+			l.len() == 2 && addr_dyn(l[0]) < addr_dyn(l[1])
+		}
+		None => true,
+	}
+}
+
+/// the cached list is strictly monotone by address in the code's direction (so adjacent comparison finds
+/// every duplicate: lemma L1)
 pub fn strictly_sorted(locks: &[&dyn RawLock]) -> bool {
+	let asc = code_sorts_ascending();
 	let mut i = 1;
 	while i < locks.len() {
-		if addr_dyn(locks[i - 1]) >= addr_dyn(locks[i]) {
+		let (a, b) = (addr_dyn(locks[i - 1]), addr_dyn(locks[i]));
+		if (asc && a >= b) || (!asc && a <= b) {
 			return false;
 		}
 		i += 1;
